@@ -438,6 +438,13 @@ func (h *histState) opAdd() {
 		h.callFailed("AddWarrior", f)
 		return
 	}
+	if (err != nil || hd == nil) && h.model.Executed {
+		// adding a warrior to a battle that has already started is a state the
+		// rules do not describe: refusing it is acceptable
+		h.res.stat("probe.add-refused-mid-battle", 1)
+		h.observe("AddWarrior(refused)", false)
+		return
+	}
 	if err != nil || hd == nil {
 		h.res.add("C13", "C13 refinement AddWarrior returned an error or nil", map[string]any{"err": fmt.Sprint(err)})
 		h.dead = true
@@ -497,6 +504,13 @@ func (h *histState) opSpawn(i int, off uint64) {
 		return
 	}
 	executedBefore := h.model.Executed
+	if err != nil && executedBefore && i >= 0 && i < len(h.model.Wars) && h.model.Wars[i].State != ref.StAlive {
+		// (re-)spawning into a battle that has already started is a state the
+		// rules do not describe: refusing it is acceptable
+		h.res.stat("probe.spawn-refused-mid-battle", 1)
+		h.observe(call+"(refused)", false)
+		return
+	}
 	ok := h.model.Spawn(i, off)
 	if ok != (err == nil) {
 		h.res.add("C13", "C13 refinement SpawnWarrior error-or-not", map[string]any{"call": call, "err": fmt.Sprint(err), "model_applies": ok})
